@@ -62,9 +62,12 @@ def _iter_shallow_etree(root, doc):
 
 def _run_one(args):
     """one real parse under a configuration; returns a trace row or an error row"""
-    src, cx, scripting, builder, ns, deep = args
+    src, cx, scripting, builder, ns, deep = args[:6]
+    chunk = args[6] if len(args) > 6 else None
     import html5lib
-    from html5lib import treebuilders
+    from html5lib import treebuilders, _inputstream
+    # internal chunk size of the input stream (class attribute; this is a forked worker process)
+    _inputstream.HTMLUnicodeInputStream._defaultChunkSize = chunk or 10240
     signal.signal(signal.SIGALRM, _alarm)
     signal.alarm(BUDGET_S)
     t0 = time.time()
@@ -143,6 +146,28 @@ def run(ctx):
             jobs.append((d, cx, i % 5 == 0, builder, ns, False))
     rows = core.parallel(_run_one, jobs, chunk=300)
     judge(ctx, rows, "arbitrary")
+    # 2b. the same totality claim under small internal chunk sizes: every multi-character look-ahead of the tokenizer
+    #     (<!--, <!DOCTYPE, <![CDATA[ ... ]]>, character references, end tags in raw text) then straddles chunk edges
+    edge = ["<svg><![CDATA[a]]>b", "<svg><![CDATA[a]x]]>b]]>", "<math><mi><![CDATA[]]]]>", "<!--a--><!-x><!DOCTYPE html><!doctypo>",
+            "<script>a</scrip</script>b", "<title>a</titl</title>&amp;&#x41;&notit;", "<svg><![CDAT", "<p a='b' c=\"d\" e=f>",
+            "<textarea>\r\nx</textarea>\r\n<pre>\r\n", "<style><!--</style>--></style>"]
+    cj = []
+    for i, d in enumerate(edge + [x for x in inputs[: (150 if q else 2000)] if isinstance(x, str)]):
+        for k in ((1, 2, 3, 5) if i < len(edge) else (ctx.rng.choice([1, 2, 3, 5, 7, 13]),)):
+            for builder in ("etree", "dom"):
+                cj.append((d, None if i % 3 else "div", False, builder, True, False, k))
+    crow = core.parallel(_run_one, cj, chunk=200)
+    judge(ctx, crow, "chunked")
+    # 2c. many distinct element names in one document / one long-lived parser (bounded per-phase handler caches)
+    many = []
+    for n in ((300,) if q else (300, 1000, 3000)):
+        names = ["t%d" % i for i in range(n)]
+        many += ["".join("<%s>" % x for x in names), "".join("</%s>" % x for x in names), "<select>" + "".join("<%s>" % x for x in names),
+                 "<frameset>" + "".join("<%s>" % x for x in names), "<table>" + "".join("<%s></%s>" % (x, x) for x in names),
+                 "<svg>" + "".join("<%s/>" % x for x in names)]
+    mj = [(d, None, False, b, True, True) for d in many for b in ("etree", "dom")]
+    judge(ctx, core.parallel(_run_one, mj, chunk=2), "manynames")
+    ctx.notes["long_lived_parser"] = long_lived(ctx, 300 if q else 1500)
     # 3. depth pumping from the model
     r = ctx.tlc("MC_Pump", PUMP_CFG % ",".join('"%s"' % d for d in listed), "pump")
     pairs = sorted((core.ucs(x["pre"]), core.ucs(x["tg"])) for x in r.records)
@@ -159,6 +184,24 @@ def run(ctx):
     prow = core.parallel(_run_one, pj, chunk=8)
     judge(ctx, prow, "pump")
     ctx.sample({"pump_input": "<div><ruby>" + "<rt>*1500" + "</div>x"})
+
+
+def long_lived(ctx, n):
+    """one parser object parsing n small documents / fragments with pairwise distinct element names must keep returning trees"""
+    import html5lib
+    bad = 0
+    for tb in ("etree", "dom"):
+        p = html5lib.HTMLParser(tree=html5lib.getTreeBuilder(tb))
+        for i in range(n):
+            d = "<x%d><y%d>t</y%d></z%d>" % (i, i, i, i)
+            try:
+                p.parse(d) if i % 2 else p.parseFragment(d)
+            except Exception as e:
+                bad += 1
+                ctx.violation("parse did not return a tree on a long-lived parser: %s: %s" % (type(e).__name__, str(e)[:80]),
+                              {"kind": "totality-history", "builder": tb, "call": i, "src": d})
+                break
+    return {"calls": 2 * n, "failures": bad}
 
 
 def judge(ctx, rows, tag):
